@@ -407,6 +407,61 @@ theorem registered_callback_is_stored (d : Dialect) (db db' : Db) (c : CreateCal
     injection hr with hr
     exact absurd hr.symm hn
 
+/-- **claim / task completion, acknowledged ⇒ stored.** A claim goes on to read the attached promises (and then
+    answers `201`) only on a result reporting exactly one updated task row … -/
+theorem claim_proceeds_only_on_row (env : Env) (req : ClaimTaskReq) (t0 t t2 : Time) (r : TaskRow) (cpls2 : List Cpl)
+    (subs : List Subm) (k : Time → List Cpl → Co)
+    (h : ((claimTask env req t0).next t [.store [.tasks [r]]]).next t2 cpls2 = .yield subs k) : cpls2 = [.store [.rows 1]] := by
+  unfold claimTask at h
+  split at h
+  · simp [Co.next] at h
+  · split at h
+    · simp [Co.next] at h
+    · simp only [Co.next, readTaskRow] at h
+      by_cases h1 : (r.toTask.state == T_CLAIMED) = true
+      · simp [h1, Co.next] at h
+      · by_cases h2 : (r.toTask.state == T_COMPLETED || r.toTask.state == T_TIMEDOUT) = true
+        · simp [h1, h2, Co.next] at h
+        · by_cases h3 : (r.toTask.counter != req.counter) = true
+          · simp [h1, h2, h3, Co.next] at h
+          · simp only [h1, h2, h3, Bool.false_eq_true, if_false, Co.next] at h
+            split at h
+            · simp [errResp] at h
+            · rename_i n
+              split at h
+              · cases h
+              · split at h
+                · cases h
+                · rename_i hn1 hn0
+                  have hn0' : n ≠ 0 := by simpa using hn0
+                  have : n = 1 := by omega
+                  subst this; rfl
+            · cases h
+
+/-- … and whenever a task update reports an updated row, the task row with that id carries the commanded state,
+    holder, lease and counter after the transaction -/
+theorem updated_task_is_stored (d : Dialect) (db db' : Db) (c : UpdateTaskCmd) (n : Nat)
+    (h : db.exec (defs d) (.updateTask c) = .ok (db', .rows n)) (hn : n ≠ 0) :
+    ∃ r ∈ db'.tasks, r.id = c.id ∧ r.state = c.state ∧ r.processId = c.processId ∧ r.ttl = c.ttl ∧
+      r.expiresAt = c.expiresAt ∧ r.counter = c.counter ∧ r.completedOn = c.completedOn := by
+  simp only [Db.exec] at h
+  split at h
+  · cases h
+  · injection h with h; injection h with hdb hr
+    injection hr with hr
+    subst hdb
+    have hpos : 0 < countP ((defs d).taskUpdate_where c) db.tasks := by omega
+    unfold countP at hpos
+    obtain ⟨r, hr⟩ := List.exists_mem_of_length_pos hpos
+    obtain ⟨hmem, hp⟩ := List.mem_filter.mp hr
+    refine ⟨(defs d).taskUpdate_set c r, ?_, ?_⟩
+    · rw [mem_updateWhere]
+      exact ⟨r, hmem, .inl ⟨hp, rfl⟩⟩
+    · have hid : r.id = c.id := by
+        simp only [defs, taskUpdate_where, Bool.and_eq_true, beq_iff_eq] at hp
+        exact hp.1.1
+      exact ⟨hid, rfl, rfl, rfl, rfl, rfl, rfl⟩
+
 /-! ### all or nothing -/
 
 /-- a creation writes the promise and, if it routes, its task in ONE command of ONE transaction -/
